@@ -159,3 +159,19 @@ Proof.
   - intros u [<-|[]]. reflexivity.
   - intros cs [<-|[]]. left. left. reflexivity.
 Qed.
+
+(* order dependence also arises from incomparable upper bounds without any Any:
+   a united top can later be replaced by a narrower bound *)
+Definition w_inc_order : list (bound (@sval atom)) :=
+  [UpperBound (SU [A_litNone]); UpperBound (SU [A_lita; A_float; A_lit1]); UpperBound (SU [A_bool]); LowerBound (SU [A_lit1_5])].
+Definition w_inc_order' : list (bound (@sval atom)) :=
+  [UpperBound (SU [A_litNone]); UpperBound (SU [A_bool]); UpperBound (SU [A_lita; A_float; A_lit1]); LowerBound (SU [A_lit1_5])].
+
+Lemma perm_refuted_incomparable :
+  Permutation w_inc_order w_inc_order' /\
+  is_err (solve atom_ops w_inc_order) = true /\ is_err (solve atom_ops w_inc_order') = false /\
+  forallb (fun a => negb (is_any atom_ops a)) (uppers w_inc_order) = true /\
+  uppers_ok atom_ops (uppers w_inc_order) = false.
+Proof.
+  split; [apply perm_skip, perm_swap|]. vm_compute. repeat split.
+Qed.
